@@ -231,13 +231,17 @@ Definition tbl : table := Eval vm_compute in build nodes.
 (** hand-written lists, matched BY NAME against the regenerated table (relative to the package root) *)
 Local Open Scope string_scope.
 (** root causes of the known findings: the nodes whose own body brings in a forbidden source *)
-(** (C08-ga-os-entropy was repaired in the source: every pymoo minimize() call now passes seed = f(self.rng); there is no
-    OS-entropy root any more — the translator reports OS at any minimize() call site that passes no seed) *)
-Definition roots_addon : list String.string := [   (* C08-ga-ignores-rng : operators draw from numpy.random *)
+(** Repaired in the source, hence NOT listed any more (a stale entry breaks [roots_real]):
+    - C08-ga-os-entropy: every pymoo minimize() call passes seed = f(self.rng); the translator reports OS at any call site without;
+    - C08-ga-ignores-rng: SubsetRandomSampling / ReducedExchangeCrossover / ReducedExchangeMutation draw from the random_state
+      pymoo hands them;
+    - C08-selcfg-global-rng: the 8 selection protocols pass rng = self.rng to the configuration and to their default optimisers;
+    - C08-helpers-global-rng: Random*SelectionProblem.from_object accepts rng, Random*Selection.problem passes self.rng;
+    - C08-g1norm-global-shuffle: Generalized1NormGenomicSelection.select shuffles with self.rng;
+    - C08-setga-python-random: UnconstrainedSetGeneticAlgorithm.sel*Replacement draw from self.rng.
+    The formerly failing sites are listed in [repaired] below and proved explicit-only without exception. *)
+Definition roots_memetic : list String.string := [   (* C08-memetic-ignores-rng : memetic mutation operators draw from numpy.random *)
   "opt.algo.pymoo_addon.tiled_choice";
-  "opt.algo.pymoo_addon.SubsetRandomSampling._do";
-  "opt.algo.pymoo_addon.ReducedExchangeCrossover._do";
-  "opt.algo.pymoo_addon.ReducedExchangeMutation._do";
   "opt.algo.pymoo_addon.MultiObjectiveStochasticHillClimberMutation.hillclimb";
   "opt.algo.pymoo_addon.MultiObjectiveStochasticHillClimberMutation._do";
   "opt.algo.pymoo_addon.MultiObjectiveSteepestDescentHillClimberMutation.hillclimb";
@@ -252,7 +256,24 @@ Definition roots_addon : list String.string := [   (* C08-ga-ignores-rng : opera
   "opt.algo.pymoo_addon.MutatorA.reduced_exchange"; "opt.algo.pymoo_addon.MutatorA.hillclimb"; "opt.algo.pymoo_addon.MutatorA._do";
   "opt.algo.pymoo_addon.MutatorB.reduced_exchange"; "opt.algo.pymoo_addon.MutatorB.hillclimb"; "opt.algo.pymoo_addon.MutatorB._do";
   "opt.algo.pymoo_addon.MutatorF.reduced_exchange"; "opt.algo.pymoo_addon.MutatorF.hillclimb"; "opt.algo.pymoo_addon.MutatorF._do" ].
-Definition roots_selcfg : list String.string := [   (* C08-selcfg-global-rng : rng = None / default optimiser without the generator *)
+Definition roots_global_helpers : list String.string := [   (* C08-helpers-no-rng-param : helpers WITHOUT an rng parameter, reachable from rng-taking protocols, draw from the global stream *)
+  "breed.prot.sel.prob.RealLookAheadGeneralizedWeightedGenomicSelectionProblem.RealLookAheadGeneralizedWeightedGenomicSelectionProblem.latentfn";
+  "model.embvmat.DenseExpectedMaximumBreedingValueMatrix.DenseExpectedMaximumBreedingValueMatrix.from_gmod";
+  "popgen.cmat.DenseCoancestryMatrix.DenseCoancestryMatrix.apply_jitter" ].
+Definition roots_py : list String.string := [   (* C08-deap-python-random : deap.tools.selTournamentDCD draws from python's global stream *)
+  "opt.algo.UnconstrainedNSGA2SetGeneticAlgorithm.UnconstrainedNSGA2SetGeneticAlgorithm.optimize" ].
+(** the seeding interface itself: by design it writes both global streams *)
+Definition roots_prng : list String.string := [ "core.random.prng.seed"; "core.random.prng.spawn" ].
+Definition root_names : list String.string :=
+  roots_memetic ++ roots_global_helpers ++ roots_py ++ roots_prng.
+
+(** the formerly failing sites of the repaired findings (the former root causes): explicit-only, no exception, not a root *)
+Definition repaired : list String.string := [
+  (* C08-ga-ignores-rng *)
+  "opt.algo.pymoo_addon.SubsetRandomSampling._do";
+  "opt.algo.pymoo_addon.ReducedExchangeCrossover._do";
+  "opt.algo.pymoo_addon.ReducedExchangeMutation._do";
+  (* C08-selcfg-global-rng *)
   "breed.prot.sel.BinaryMateSelectionProtocol.BinaryMateSelectionProtocol.select";
   "breed.prot.sel.BinarySelectionProtocol.BinarySelectionProtocol.select";
   "breed.prot.sel.IntegerMateSelectionProtocol.IntegerMateSelectionProtocol.select";
@@ -268,24 +289,17 @@ Definition roots_selcfg : list String.string := [   (* C08-selcfg-global-rng : r
   "breed.prot.sel.RealSelectionProtocol.RealSelectionProtocol.soalgo.setter";
   "breed.prot.sel.RealSelectionProtocol.RealSelectionProtocol.moalgo.setter";
   "breed.prot.sel.SubsetSelectionProtocol.SubsetSelectionProtocol.soalgo.setter";
-  "breed.prot.sel.SubsetSelectionProtocol.SubsetSelectionProtocol.moalgo.setter" ].
-Definition roots_global_helpers : list String.string := [   (* C08-helpers-global-rng : helpers reachable from rng-taking protocols draw from the global stream *)
+  "breed.prot.sel.SubsetSelectionProtocol.SubsetSelectionProtocol.moalgo.setter";
+  (* C08-helpers-global-rng *)
   "breed.prot.sel.prob.RandomSelectionProblem.RandomBinarySelectionProblem.from_object";
   "breed.prot.sel.prob.RandomSelectionProblem.RandomIntegerSelectionProblem.from_object";
   "breed.prot.sel.prob.RandomSelectionProblem.RandomRealSelectionProblem.from_object";
   "breed.prot.sel.prob.RandomSelectionProblem.RandomSubsetSelectionProblem.from_object";
-  "breed.prot.sel.prob.RealLookAheadGeneralizedWeightedGenomicSelectionProblem.RealLookAheadGeneralizedWeightedGenomicSelectionProblem.latentfn";
+  (* C08-g1norm-global-shuffle *)
   "breed.prot.sel.UnconstrainedGeneralized1NormGenomicSelection.Generalized1NormGenomicSelection.select";
-  "model.embvmat.DenseExpectedMaximumBreedingValueMatrix.DenseExpectedMaximumBreedingValueMatrix.from_gmod";
-  "popgen.cmat.DenseCoancestryMatrix.DenseCoancestryMatrix.apply_jitter" ].
-Definition roots_py : list String.string := [   (* C08-deap-python-random : python's global stream next to the component's generator *)
+  (* C08-setga-python-random *)
   "opt.algo.UnconstrainedSetGeneticAlgorithm.UnconstrainedSetGeneticAlgorithm.selRandomReplacement";
-  "opt.algo.UnconstrainedSetGeneticAlgorithm.UnconstrainedSetGeneticAlgorithm.selTournamentReplacement";
-  "opt.algo.UnconstrainedNSGA2SetGeneticAlgorithm.UnconstrainedNSGA2SetGeneticAlgorithm.optimize" ].
-(** the seeding interface itself: by design it writes both global streams *)
-Definition roots_prng : list String.string := [ "core.random.prng.seed"; "core.random.prng.spawn" ].
-Definition root_names : list String.string :=
-  roots_addon ++ roots_selcfg ++ roots_global_helpers ++ roots_py ++ roots_prng.
+  "opt.algo.UnconstrainedSetGeneticAlgorithm.UnconstrainedSetGeneticAlgorithm.selTournamentReplacement" ].
 
 (** components that the property anchors: they MUST be explicit-only (no exception applies to them) *)
 Definition must_be_explicit : list String.string := [
@@ -327,7 +341,18 @@ Definition must_be_explicit : list String.string := [
   "opt.algo.RealGeneticAlgorithm.RealGeneticAlgorithm.minimize"; "opt.algo.RealGeneticAlgorithm.RealGeneticAlgorithm.__init__";
   "opt.algo.NSGA2BinaryGeneticAlgorithm.NSGA2BinaryGeneticAlgorithm.minimize"; "opt.algo.NSGA2BinaryGeneticAlgorithm.NSGA2BinaryGeneticAlgorithm.__init__";
   "opt.algo.NSGA2IntegerGeneticAlgorithm.NSGA2IntegerGeneticAlgorithm.minimize"; "opt.algo.NSGA2IntegerGeneticAlgorithm.NSGA2IntegerGeneticAlgorithm.__init__";
-  "opt.algo.NSGA2RealGeneticAlgorithm.NSGA2RealGeneticAlgorithm.minimize"; "opt.algo.NSGA2RealGeneticAlgorithm.NSGA2RealGeneticAlgorithm.__init__" ].
+  "opt.algo.NSGA2RealGeneticAlgorithm.NSGA2RealGeneticAlgorithm.minimize"; "opt.algo.NSGA2RealGeneticAlgorithm.NSGA2RealGeneticAlgorithm.__init__";
+  (* pymoo-based subset optimisers: since the repair of C08-ga-ignores-rng their operators draw from pymoo's generator too *)
+  "opt.algo.SubsetGeneticAlgorithm.SubsetGeneticAlgorithm.minimize"; "opt.algo.SubsetGeneticAlgorithm.SubsetGeneticAlgorithm.__init__";
+  "opt.algo.NSGA2SubsetGeneticAlgorithm.NSGA2SubsetGeneticAlgorithm.minimize"; "opt.algo.NSGA2SubsetGeneticAlgorithm.NSGA2SubsetGeneticAlgorithm.__init__";
+  "opt.algo.NSGA3SubsetGeneticAlgorithm.NSGA3SubsetGeneticAlgorithm.minimize"; "opt.algo.NSGA3SubsetGeneticAlgorithm.NSGA3SubsetGeneticAlgorithm.__init__";
+  (* legacy set GA: since the repair of C08-setga-python-random *)
+  "opt.algo.UnconstrainedSetGeneticAlgorithm.UnconstrainedSetGeneticAlgorithm.optimize";
+  "opt.algo.UnconstrainedSetGeneticAlgorithm.UnconstrainedSetGeneticAlgorithm.__init__";
+  (* random selection: problem construction draws the random breeding values from the protocol's generator *)
+  "breed.prot.sel.RandomSelection.RandomBinarySelection.problem"; "breed.prot.sel.RandomSelection.RandomIntegerSelection.problem";
+  "breed.prot.sel.RandomSelection.RandomRealSelection.problem"; "breed.prot.sel.RandomSelection.RandomSubsetSelection.problem" ]
+  ++ repaired.
 (** components that use the global stream by design (no rng argument): reproducible after seeding *)
 Definition global_by_design : list String.string := [
   "popgen.cmat.DenseCoancestryMatrix.DenseCoancestryMatrix.apply_jitter";
@@ -339,6 +364,14 @@ Definition opt_list {A} (o : option (list A)) : list A := match o with Some l =>
 Definition root_ids : list positive := Eval vm_compute in opt_list (ids_of root_names).
 Definition must_ids : list positive := Eval vm_compute in opt_list (ids_of must_be_explicit).
 Definition global_ids : list positive := Eval vm_compute in opt_list (ids_of global_by_design).
+Definition repaired_ids : list positive := Eval vm_compute in opt_list (ids_of repaired).
+
+(** masks the FORMER code had at the repaired sites (regression witnesses, see [Proofs]): a selection protocol's [select] passed
+    the literal rng = None on (DROPS); the subset operators and the random-selection helpers drew from numpy's global stream (NP);
+    the legacy set GA drew from python's global stream (PY) *)
+Definition old_selcfg_mask : N := DROPS.
+Definition old_global_draw_mask : N := NP.
+Definition old_setga_mask : N := N.lor SELF PY.
 
 (** direct masks: as they are / with the named root causes blanked out *)
 Definition dir_full (n : positive) (d : N) : N := d.
@@ -437,6 +470,13 @@ Section World.
     forall w, snd (run c w) LPy = w LPy /\ snd (run c w) LNp = w LNp /\
       forall w', w' (LEx i) = w (LEx i) ->
         fst (run c w') = fst (run c w) /\ snd (run c w') (LEx i) = snd (run c w) (LEx i).
+  (** the FORMER behaviour of the repaired components: handed generator i, they ALSO read and advance numpy's global stream
+      (output = both states; both are stepped by [next]) *)
+  Variable next : G -> G.
+  Variable pairO : G -> G -> O.
+  Definition old_global_draw_call (i : nat) : call :=
+    mkcall [LEx i; LNp] [LEx i; LNp]
+      (fun w => (pairO (w (LEx i)) (w LNp), upd (upd w (LEx i) (next (w (LEx i)))) LNp (next (w LNp)))).
 End World.
 Arguments upd {G} w l g _.
 Arguments mkcall {G O} reads writes run.
@@ -448,6 +488,7 @@ Arguments scoped {G O} A p.
 Arguments known_after {G O} A p.
 Arguments seed_call {G O} py_of_seed np_of_seed out_unit s.
 Arguments isolated {G O} c i.
+Arguments old_global_draw_call {G O} next pairO i.
 
 (** locations of a static footprint mask; [ex] = Some i when the caller supplied generator i *)
 Definition locs_of (ex : option nat) (m : N) : list loc :=
